@@ -150,6 +150,9 @@ def classify(ev):
     """which property a rejected event belongs to"""
     if ev["ev"] == "panic":
         return "both"
+    if ev["ev"] == "call_mismatch":
+        k = ev.get("op", {}).get("op")
+        return {"prune": "C15", "get": "C05", "insert": "C05"}.get(k, "both")
     if ev["ev"] == "prune":
         return "C15"
     post = ev.get("post")
